@@ -276,7 +276,7 @@ def run(ctx):
     # ---- corpus
     paths = G.corpus_scripts()
     if quick:
-        paths = ctx.rng.sample(paths, 600)
+        paths = ctx.rng.sample(paths, 400)
     n_parse = n_ok = n_assign = 0
     for p in paths:
         try:
@@ -314,7 +314,7 @@ def run(ctx):
             add(k, w, {"script": s_, "kind": "template"})
     ctx.cov["template_scripts"] = n_t
     # ---- directed + generated, with run equivalence
-    n_gen = 60 if quick else 2000
+    n_gen = 40 if quick else 1200
     directed = directed_cases()
     n_run = n_run_ok = 0
     hist: Dict[str, int] = {}
@@ -347,7 +347,7 @@ def run(ctx):
     ctx.cov["runs_equal"] = n_run_ok
     ctx.cov["generated_template_histogram"] = hist
     # ---- test-suite scripts with data
-    n_suite = 25 if quick else 500
+    n_suite = 15 if quick else 300
     sp = G.corpus_scripts()
     ctx.rng.shuffle(sp)
     done = eq = 0
@@ -382,6 +382,8 @@ def run(ctx):
         if key not in known:
             save_corpus(rep)
     ctx.cov["failure_classes"] = {k: len(v) for k, v in by_key.items()}
+    import time as _t
+    ctx.cov["python_cpu_seconds"] = round(_t.process_time(), 1)
     ctx.cov["rule"] = ("one evaluated case = one script whose scheme is generated, compared item by item with the AST's assignments, whose "
                        "definitions and full expressions are re-parsed and compared as ASTs (+ run(scheme) vs run(script) where data exists); "
                        "distinct = script path / generated index")
